@@ -7,6 +7,7 @@ mod core;
 mod net;
 mod nodeenv;
 mod peer;
+mod procs;
 mod runner;
 mod scen;
 mod wire;
